@@ -1159,7 +1159,14 @@ func ruleEnumeration(r *ev.Run) *ruleTable {
 	}
 	var prev map[string]bool
 	var prevRate uint64
-	for _, rate := range rates {
+	for ri, rate := range rates {
+		if ri%2 == 1 {
+			// every other rate arrives by a reload WHILE relief is active (the previous rate's passes end with
+			// relief off): a SamplingRate reloaded during an activation is in force at once, like one reloaded before
+			cl.setStress(0, true)
+			cl.setStress(1, true)
+			r.Add("rule_rates_reloaded_while_relief_active", 1)
+		}
 		setRate(rate)
 		keep := map[string]bool{}
 		nKept := 0
